@@ -2221,7 +2221,7 @@ def flw3p(ctx):
     root = _top_level_inlined_r5(lib, b)
     par = hirq.parent_map(root)
     loops = [x for x in hirq.walk(root) if x["e"] == "match" and "ForLoop" in str(x.get("src")) and any(y["e"] == "field" and y.get("name") == "after" for y in hirq.walk(x.get("scrut") or {}))]
-    whole = [x for x in hirq.walk(root) if x["e"] in ("call", "mcall") and any(hirq.strip(a).get("e") in ("field", "addr") and any(y["e"] == "field" and y.get("name") == "after" for y in hirq.walk(a)) for a in x.get("args", []))
+    whole = [x for x in hirq.walk(b.hir["body"]) if x["e"] in ("call", "mcall") and any(hirq.strip(a).get("e") in ("field", "addr") and any(y["e"] == "field" and y.get("name") == "after" for y in hirq.walk(a)) for a in x.get("args", []))
              and not any(x is l or any(x is y for y in hirq.walk(l)) for l in loops)]
     n = 0
     for lp in loops:
